@@ -400,6 +400,7 @@ class SimNet:
         self.errno_plan = {}        # (op, owner) -> [call_index, errno]  one-shot injected errnos
         self.bind_fail = None       # errno for the next bind(), one-shot
         self.errno_one_shot = False # injected errnos do not reset the connection
+        self.fresh_ports = False    # client ports are never reused
         self.current_owner = None
         self.ports = list(ports)
         self._port_next = 0
@@ -431,6 +432,8 @@ class SimNet:
         for s in self.sockets:
             if s.state == "connected" and s.raddr is not None and s.raddr[1] == rport and s.laddr is not None:
                 used.add(s.laddr[1])
+        if self.fresh_ports:      # never hand out a port a closed socket had (no address reuse in this run)
+            used |= set(t.laddr[1] for t in self.sockets if t.laddr)
         for p in self.ports:
             if p not in used:
                 if any(t.laddr and t.laddr[1] == p and t.state == "closed" for t in self.sockets):
